@@ -575,6 +575,11 @@ def run_shard(spec):
     rng = rng_for("C17", spec["seed"], spec["shard"])
     scratch = os.path.join(os.environ["VF_SCRATCH"], "c17-%d" % spec["shard"])
     os.makedirs(scratch, exist_ok=True)
+    from ..mon import state as MS
+    import fastavro.utils, fastavro.json_read, fastavro.json_write  # noqa: everything the histories use, before the snapshot
+
+    state0 = MS.snapshot()
+    sh.counters["module_state_objects_watched"] = len(state0)
     try:
         if "replay" in spec:
             # histories are regenerated from the seed recorded in the replay file
@@ -592,4 +597,9 @@ def run_shard(spec):
                 sh.sample({"history_no": i, "ops_so_far": {k: v for k, v in sh.counters.items() if k.startswith("op_")}})
     finally:
         zy.close()
+    # evidence only: which module-level objects / mutable defaults differ after all histories
+    moved = MS.changed(state0, MS.snapshot())
+    sh.counters["module_state_objects_changed"] = len(moved)
+    if moved and len(sh.samples) < 6:
+        sh.samples.append({"module_state_changed_after_histories": moved[:12]})
     return sh.result()
